@@ -77,7 +77,7 @@ decreasing_by cases bits <;> simp_all <;> omega
 /-! ### encoder parameters and strings -/
 
 /-- latitude a writer has: `reuse` bit `i mod 16` says whether a string that is already remembered at
-index `i` is written as a back reference; every integer takes at least `width` bytes -/
+index `i` (below 2^31) is written as a back reference; every integer takes at least `width` bytes -/
 structure Enc where
   reuse : Nat
   width : Nat
@@ -98,7 +98,7 @@ def findString (tbl : List Bytes) (s : Bytes) : Option Nat :=
 def encString (p : Enc) (tbl : List Bytes) (s : Bytes) : Bytes × List Bytes :=
   match findString tbl s with
   | some i =>
-    if p.reuse.testBit (i % 16) then (p.int (-(i : Int)), tbl)
+    if p.reuse.testBit (i % 16) && decide (i < 2 ^ 31) then (p.int (-(i : Int)), tbl)
     else (p.nat s.length ++ s, tbl ++ [s])
   | none => (p.nat s.length ++ s, tbl ++ [s])
 
